@@ -82,6 +82,8 @@ pub struct Sig {
     pub grouped_lt_pred: Option<usize>,
     /// a (trivially true) where predicate over a bounded type that is not a plain parameter name
     pub extra_where: Option<usize>,
+    /// position of the dependency's type parameter among the type / const parameters (modulo their number)
+    pub deps_param_pos: usize,
     pub has_const: bool,
     pub params: Vec<PTy>,
     pub ret: RTy,
@@ -223,6 +225,13 @@ impl Sig {
         }
         if self.has_const {
             g.push("const N: usize".into());
+        }
+        // the dependency's type parameter need not be the first one: it may follow other type / const parameters
+        if let Some(at) = g.iter().position(|p| p == "D" || p.starts_with("D:")) {
+            let first = g.iter().position(|p| !p.starts_with('\'')).unwrap_or(0);
+            let d = g.remove(at);
+            let slots = g.len() - first + 1;
+            g.insert(first + (self.deps_param_pos % slots), d);
         }
         (if g.is_empty() { String::new() } else { format!("<{}>", g.join(", ")) }, if w.is_empty() { String::new() } else { format!(" where {}", w.join(", ")) })
     }
@@ -565,6 +574,7 @@ pub fn gen_sig(t: &mut Tape, excl: &Excl) -> Sig {
         gen_bound_where: t.flip(),
         explicit_outlives: !excl.lifetime_predicates && t.flip(),
         extra_where: if t.chance(1, 6) { Some(t.choose(5)) } else { None },
+        deps_param_pos: if t.chance(1, 3) { t.choose(3) } else { 0 },
         grouped_lt_pred: if n_lifetimes >= 1 && !excl.lifetime_predicates && t.chance(1, 5) { Some(t.choose(7)) } else { None },
         has_const,
         params,
@@ -681,6 +691,9 @@ pub fn gen_case(t: &mut Tape, excl: &Excl) -> Case {
     }
     if sig.params.iter().any(|p| matches!(p, PTy::DepsOpt | PTy::DepsVec)) || sig.ret == RTy::DepsOpt {
         classes.push("deps_type_parameter_used_elsewhere");
+    }
+    if sig.deps_param_pos > 0 && matches!(sig.deps, Deps::RefGeneric | Deps::ValGeneric) && (sig.has_gen || sig.has_const) {
+        classes.push("deps_type_parameter_not_declared_first");
     }
     if sig.extra_where.is_some() {
         classes.push("where_predicate_on_non_parameter_type");
